@@ -443,6 +443,8 @@ func segmentFMP4MuxParts(
 			return h.Expand()
 
 		case "traf":
+			tfhd = nil
+			tfdt = nil
 			return h.Expand()
 
 		case "tfhd":
@@ -453,6 +455,10 @@ func segmentFMP4MuxParts(
 			tfhd = box.(*amp4.Tfhd)
 
 		case "tfdt":
+			if tfhd == nil {
+				return nil, fmt.Errorf("tfhd box not found")
+			}
+
 			box, _, err := h.ReadPayload()
 			if err != nil {
 				return nil, err
@@ -475,6 +481,10 @@ func segmentFMP4MuxParts(
 				return nil, err
 			}
 			trun := box.(*amp4.Trun)
+
+			if tfhd == nil || tfdt == nil {
+				return nil, fmt.Errorf("tfhd or tfdt box not found")
+			}
 
 			dataOffset := moofOffset + uint64(trun.DataOffset)
 			dts := int64(tfdt.BaseMediaDecodeTimeV1) + startDTSMP4
